@@ -1,10 +1,14 @@
-(* Correspondence for C13.  Three kinds of cases:
+(* Correspondence for C13.  Kinds of cases:
    KD   a palette and a list of query colours; the implementation's
         ColorPalette::new(pal).find(q) for every q
+   KDN  the same palette through find_naive / colors / size / get
    OCT  a sequence of OcTree operations (insert / prune / prune_until /
-        build_palette / to_digraph) and what the implementation returned
+        build_palette / to_digraph / find / a new tree; clone and extend are
+        the identity and the inserts) and what the implementation returned
    QNT  an (effective) image, a requested palette size and the dithering flag;
         the implementation's Image::quantize result
+   PAL  ColorPalette::from_image on a window / transposed window of a surface
+   RND  the common::Rnd stream        ACC  n copies of one colour through OcTree::insert
    First component: the model computes exactly the same values.
    Second component: the property of properties.jsonl/C13 evaluated on the
    implementation's output with brute-force definitions (is_nearestb, bounds). *)
@@ -56,8 +60,32 @@ Definition kd_holds (pal qs : list rgb) (impl : list (ires (N * rgb))) : bool :=
 
 (* ---------- OCT ---------- *)
 
-Inductive oc_op := OIns (c : rgb) | OPrune | OPruneUntil (k : N) | OPalette | ODigraph.
-Inductive oc_obs := BPal (p : list rgb) | BDig (d : dnode).
+Inductive oc_op := OIns (c : rgb) | OPrune | OPruneUntil (k : N) | OPalette | ODigraph
+                  | ONew | OFind (c : rgb) | OFindIdx (c : rgb).
+Inductive oc_obs := BPal (p : list rgb) | BDig (d : dnode)
+                  | BFind (o : option rgb) | BFindIdx (o : option (N * rgb)).
+
+(* OcTree::find: walk the path of the colour; an empty slot ends the search, the first leaf met (at any depth:
+   pruning leaves leaves above depth 8) answers with its average colour.  The index is the one build_palette
+   stored: the position of the leaf in depth-first order (OFindIdx is only emitted directly after OPalette) *)
+Fixpoint find_rec (path : list nat) (ch : list node) : option (N * leaf) :=
+  match path with
+  | [] => None
+  | k :: rest =>
+      let before := N.of_nat (length (flat_map leaves_of (firstn k ch))) in
+      match nth k ch Empty with
+      | Empty => None
+      | Leaf l => Some (before, l)
+      | Tree _ _ ch' =>
+          match find_rec rest ch' with Some (i, l) => Some (before + i, l) | None => None end
+      end
+  end.
+
+Definition oc_find (t : octree) (c : rgb) : outcome (option (N * rgb)) :=
+  match find_rec (path_packed c) (o_children t) with
+  | None => Ok None
+  | Some (i, l) => let* col := leaf_rgb l in Ok (Some (i, col))
+  end.
 
 Fixpoint run_ops (t : octree) (ops : list oc_op) : outcome (list oc_obs) :=
   match ops with
@@ -70,6 +98,12 @@ Fixpoint run_ops (t : octree) (ops : list oc_op) : outcome (list oc_obs) :=
   | ODigraph :: r =>
       if has_zero_leaf t then Panic 13002
       else let* o := run_ops t r in Ok (BDig (digraph t) :: o)
+  | ONew :: r => run_ops oc_new r
+  | OFind c :: r =>
+      let* f := oc_find t c in let* o := run_ops t r in
+      Ok (BFind (match f with Some (_, col) => Some col | None => None end) :: o)
+  | OFindIdx c :: r =>
+      let* f := oc_find t c in let* o := run_ops t r in Ok (BFindIdx f :: o)
   end.
 
 Fixpoint dnode_eqb (a b : dnode) {struct a} : bool :=
@@ -90,7 +124,20 @@ Definition obs_eqb (a b : oc_obs) : bool :=
   match a, b with
   | BPal p, BPal q => rgbs_eqb p q
   | BDig d, BDig e => dnode_eqb d e
+  | BFind None, BFind None => true
+  | BFind (Some c), BFind (Some d) => rgb_eqb c d
+  | BFindIdx None, BFindIdx None => true
+  | BFindIdx (Some (i, c)), BFindIdx (Some (j, d)) => (i =? j) && rgb_eqb c d
   | _, _ => false
+  end.
+
+(* what find must answer while nothing was pruned: every leaf is at depth 8, so exactly the inserted colours are
+   found, as themselves *)
+Definition find_ok (inserted : list rgb) (pruned : bool) (c : rgb) (o : option rgb) : bool :=
+  pruned ||
+  match o with
+  | Some d => existsb (rgb_eqb c) inserted && rgb_eqb c d
+  | None => negb (existsb (rgb_eqb c) inserted)
   end.
 
 (* the property on the observed palettes: a build_palette that directly follows a
@@ -125,6 +172,38 @@ Fixpoint oct_holds_from (inserted : list rgb) (manual pruned : bool) (ops : list
       match obs with BPal _ :: obs' => oct_holds_from inserted manual pruned r obs' | _ => false end
   | ODigraph :: r =>
       match obs with BDig _ :: obs' => oct_holds_from inserted manual pruned r obs' | _ => false end
+  | ONew :: r => oct_holds_from [] false false r obs
+  | OFind c :: r =>
+      match obs with
+      | BFind o :: obs' => find_ok inserted pruned c o && oct_holds_from inserted manual pruned r obs'
+      | _ => false
+      end
+  | OFindIdx c :: r =>
+      match obs with
+      | BFindIdx o :: obs' =>
+          find_ok inserted pruned c (match o with Some (_, d) => Some d | None => None end) &&
+          oct_holds_from inserted manual pruned r obs'
+      | _ => false
+      end
+  end.
+
+(* the index returned by find directly after build_palette (the doc comment of OcTree::find: 'to get correct
+   palette index call build_palette first') is a valid index of that palette and names the colour returned *)
+Fixpoint find_idx_ok (lastp : list rgb) (ops : list oc_op) (obs : list oc_obs) : bool :=
+  match ops with
+  | [] => true
+  | OIns _ :: r | OPrune :: r | OPruneUntil _ :: r | ONew :: r => find_idx_ok lastp r obs
+  | OPalette :: r => match obs with BPal p :: o' => find_idx_ok p r o' | _ => false end
+  | ODigraph :: r | OFind _ :: r => match obs with _ :: o' => find_idx_ok lastp r o' | [] => false end
+  | OFindIdx _ :: r =>
+      match obs with
+      | BFindIdx o :: o' =>
+          match o with
+          | Some (i, d) => match nth_error lastp (N.to_nat i) with Some e => rgb_eqb d e | None => false end
+          | None => true
+          end && find_idx_ok lastp r o'
+      | _ => false
+      end
   end.
 
 (* ---------- QNT ---------- *)
@@ -136,6 +215,11 @@ Inductive c13_case :=
 | KD (pal qs : list rgb) (impl : list (ires (N * rgb)))
 | OCT (ops : list oc_op) (impl : ires (list oc_obs))
 | QNT (im : img) (k : N) (dither : bool) (impl : ires (list rgb * list (list N)))
+| KDN (pal qs : list rgb) (impl : list (ires (N * rgb))) (cols : list rgb) (size : N)
+    (* ColorPalette::new(pal): find_naive(q) for every q, colors(), size() *)
+| PAL (im : img) (k : N) (impl : ires (list rgb))
+    (* ColorPalette::from_image(surface, k, bg).colors() for a surface that is not an Image (a sub-view or a
+       transposed view); im = the effective pixels in the surface's own iteration order *)
 | RND (seed : N) (impl : list N)           (* common::Rnd::with_seed(seed), successive next_u32() *)
 | ACC (pixels : N) (c : rgb) (impl : ires rgb).
   (* OcTree::insert of `pixels` copies of one colour, then build_palette: the single palette colour *)
@@ -160,12 +244,32 @@ Definition c13_check (c : c13_case) : bool * bool :=
   | KD pal qs impl => (kd_agree pal qs impl, kd_holds pal qs impl)
   | OCT ops impl =>
       (ires_eqb (list_eqb obs_eqb) (run_ops oc_new ops) impl,
-       match impl with IOk obs => oct_holds_from [] false false ops obs | _ => false end)
+       match impl with IOk obs => oct_holds_from [] false false ops obs && find_idx_ok [] ops obs | _ => false end)
   | QNT im k dither impl =>
       (rect im && ires_eqb qres_eqb (quantize im k dither) impl,
        match impl with
        | IOk (pal, q) => rect im && (1 <=? k) && quantize_holds im k dither pal q
        | INone => (img_height im =? 0) || (img_width im =? 0)   (* only an empty image has no palette *)
+       | _ => false
+       end)
+  | KDN pal qs impl cols size =>
+      (list_eqb2 (fun (m : option (N * rgb)) i => match m, i with
+                                                   | Some a, IOk b => hit_eqb a b
+                                                   | None, IPanic => true
+                                                   | _, _ => false
+                                                   end) (map (find_naive pal) qs) impl
+       && rgbs_eqb cols pal && (size =? N.of_nat (length pal)),
+       rgbs_eqb cols pal && (size =? N.of_nat (length pal)) && (length qs =? length impl)%nat &&
+       forallb (fun p => match snd p with IOk (i, c) => is_nearestb pal (fst p) i c | _ => false end) (combine qs impl))
+  | PAL im k impl =>
+      (rect im && ires_eqb rgbs_eqb (palette_of_image im k) impl,
+       match impl with
+       | IOk pal =>
+           let np := N.of_nat (length pal) in
+           rect im && (1 <=? k) && (1 <=? np) && (np <=? N.max k 8) &&
+           (if (if sample_of im k <? 2 then distinct_colors im <=? k else false)
+            then forallb (fun c => existsb (rgb_eqb c) pal) (img_pixels im) else true)
+       | INone => (img_height im =? 0) || (img_width im =? 0)
        | _ => false
        end)
   | ACC n c impl =>
